@@ -42,6 +42,8 @@ type daemonLine struct {
 	Listener string          `json:"listener"`
 	Text     string          `json:"text"`
 	Backend  string          `json:"backend"`
+	Soak     soakSpec        `json:"soak"`
+	TickerMS int             `json:"ticker_ms"`
 }
 
 func (d *daemonWorld) conns(specs []worldBackend) ([]lmd.VerifConn, error) {
@@ -93,7 +95,7 @@ func (d *daemonWorld) listen(names []string) []string {
 
 func daemonOp(out *bufio.Writer, op string, raw []byte, scratch string) bool {
 	switch op {
-	case "daemon", "reload", "dquery", "dstate", "dstop", "dbackend_log":
+	case "daemon", "reload", "dquery", "dstate", "dstop", "dbackend_log", "soak":
 	default:
 		return false
 	}
@@ -125,6 +127,7 @@ func daemonOp(out *bufio.Writer, op string, raw []byte, scratch string) bool {
 		if err != nil {
 			return fail(err.Error())
 		}
+		lmd.VerifSetTicker(time.Duration(line.TickerMS) * time.Millisecond)
 		d.inst = lmd.VerifStartDaemon(&line.Config, conns, d.listen(line.Listen))
 		curDaemon = d
 		res["settled"] = d.inst.VerifSettle(8 * time.Second)
@@ -214,6 +217,11 @@ func daemonOp(out *bufio.Writer, op string, raw []byte, scratch string) bool {
 		}
 		log, _ := curDaemon.backends[line.Backend].TakeLog()
 		res["log"] = log
+	case "soak":
+		if curDaemon == nil {
+			return fail("no daemon")
+		}
+		res["result"] = soak(curDaemon, line.Soak)
 	case "dstop":
 		curDaemon.close()
 		curDaemon = nil
